@@ -883,8 +883,10 @@ def c14_mixed_history(rng, with_net=True):
             elif r < 0.85: h.append("act " + rand_act(rng.choice(allc)))
             elif r < 0.88 and ests: h.append(f"cfail {rng.choice(ests)}")
             elif r < 0.9: h.append(f"adv {rng.randint(0, 3)}")
-            elif r < 0.93: h.append(rng.choice(["failmk pair", "failmk listen", "failmk connect", "opt keepalive 1", "opt keepalive 0",
-                                                 "opt sndbuf 16384", "opt rcvbuf 16384", "opt reuse 0", "opt reuse 1"]))
+            elif r < 0.93: h.append(rng.choice(["failmk pair", "failmk listen", "failmk connect", "failmk bind", "failmk listencall",
+                                                 "failmk connectcall", "failmk pairopt", "opt keepalive 1", "opt keepalive 0",
+                                                 "opt sndbuf 16384", "opt rcvbuf 16384", "opt reuse 0", "opt reuse 1"] +
+                                                ([f"ofail {rng.choice(ests)}"] * 4 if ests else [])))
             else: h.append("act intr")
         entries = []
         for _ in range(rng.randint(0, 10)):
@@ -1130,6 +1132,10 @@ def c14_branch_tour():
         ["mkpair 1", "act mk:2:5", "act intr", "clear", "run all - -", "mkpair 3", "psend 3 2", "run all 3 -"],   # clear() with an un-consumed interrupt
         ["mkpair 1", "psend 1 3", "mklisten 2", "dial 2", "mkconn 3", "act wr:1:40:2", "run all I1,2,3", "clear", "run all - -"],  # clear() with a pending batch
         ["failmk pair", "failmk listen", "failmk connect", "mkpair 1", "psend 1 1", "run all 1 -"],
+        ["failmk bind", "failmk listencall", "failmk connectcall", "failmk pairopt", "mkpair 1", "mklisten 2", "dial 2", "psend 1 1", "run all 1,2 -"],
+        ["mkconn 1", "ofail 1", "run all 1 - 1 -"],                                              # a socket option fails at the connect event: onAbolished
+        ["mkconn 1", "mkconn 2", "ofail 1", "script 1 0 rme:1", "run all 1,2 -", "opt keepalive 0", "mkconn 3", "run all 3 -"],
+        ["mkconn 1", "ofail 1", "cfail 1", "run all 1 -", "act rme:1", "mkconn 2", "mkpair 3", "run all 2 -"],   # SO_ERROR first: the option is never applied
         ["opt keepalive 1", "opt sndbuf 8192", "opt rcvbuf 8192", "opt reuse 0", "mkpair 1", "mklisten 2", "dial 2", "mkconn 3", "psend 1 2", "run all 1,2,3 -"],
     ]
 
@@ -1405,7 +1411,7 @@ def replay(ctx, path):
     harness = build(ctx)
     C.lake_build([DRIVER])
     loop_dialect = bool(h) and h[0].split()[0] in ("script", "act", "mkpair", "mklisten", "mkconn", "psend", "pclose", "dial",
-                                                   "adv", "run", "runmt", "cfail")
+                                                   "adv", "run", "runmt", "cfail", "ofail", "failmk", "opt", "clear")
     ref = c14_reference if (ctx.prop == "C14" or loop_dialect) else c13_reference
     diffs = C.differential(ctx, harness, C.driver_path(DRIVER), [h], ref)
     for d in diffs:
